@@ -363,4 +363,10 @@ def Circ.compile (c : Circ) : Except Err Circ :=
     if c.unitary then .ok { c with layers := Ls, fmap := some F, bmap := some B }
     else .ok { c with layers := Ls }
 
+/-- compile every layer but not the circuit (`for layer in circ.layers: layer.compile(N)`) -/
+def Circ.compileLayersOnly (c : Circ) : Except Err Circ :=
+  match compileLayers c.N c.layers (idMap c.N) (idMap c.N) with
+  | .error e => .error e
+  | .ok (Ls, _, _) => .ok { c with layers := Ls }
+
 end PC
